@@ -131,6 +131,10 @@ class TinyExec:
                         so.d[self.ev(t.slice, env, so)] = v
                     elif isinstance(t, ast.Subscript) and isinstance(t.value, ast.Name) and isinstance(env.get(t.value.id), (dict, list)):
                         env[t.value.id][self.ev(t.slice, env, so)] = v
+                    elif isinstance(t, ast.Subscript) and isinstance(self._try(t.value, env, so), (dict, list)) and not isinstance(t.slice, ast.Slice):
+                        self._try(t.value, env, so)[self.ev(t.slice, env, so)] = v
+                    elif isinstance(t, ast.Attribute) and isinstance(self._try(t.value, env, so), Fake):
+                        setattr(self._try(t.value, env, so), t.attr, v)
                     elif isinstance(t, ast.Tuple) and all(isinstance(e, ast.Name) for e in t.elts):
                         vv = tuple(v)
                         if len(vv) != len(t.elts):
@@ -206,6 +210,12 @@ class TinyExec:
             else:
                 raise Unsupported("statement %s" % type(st).__name__)
 
+    def _try(self, n, env, so):
+        try:
+            return self.ev(n, env, so)
+        except Unsupported:
+            return None
+
     def ev(self, n, env, so):
         if isinstance(n, ast.Constant):
             return n.value
@@ -224,7 +234,18 @@ class TinyExec:
         if isinstance(n, ast.Tuple):
             return tuple(self.ev(e, env, so) for e in n.elts)
         if isinstance(n, ast.JoinedStr):
-            return ""
+            out = ""
+            for part in n.values:
+                if isinstance(part, ast.Constant):
+                    out += str(part.value)
+                else:
+                    try:
+                        v_ = self.ev(part.value, env, so)
+                        spec = self.ev(part.format_spec, env, so) if part.format_spec is not None else ""
+                        out += format(v_, spec) if part.conversion in (-1, None) else (repr(v_) if part.conversion == 114 else str(v_))
+                    except Exception:      # noqa: a message we cannot render is irrelevant to the evaluated decision
+                        out += "?"
+            return out
         if isinstance(n, ast.Attribute):
             if (dotted(n) or "") in self.stubs:
                 return self.stubs[dotted(n)]
@@ -244,6 +265,14 @@ class TinyExec:
         if isinstance(n, ast.Subscript):
             base = self.ev(n.value, env, so)
             if isinstance(base, (list, tuple, dict, str)) and not isinstance(n.slice, ast.Slice):
+                return base[self.ev(n.slice, env, so)]
+            if isinstance(base, (list, tuple, str)) and isinstance(n.slice, ast.Slice):
+                lo, hi, stp = [self.ev(x, env, so) if x is not None else None for x in (n.slice.lower, n.slice.upper, n.slice.step)]
+                return base[lo:hi:stp]
+            if type(base).__module__ == "numpy":
+                if isinstance(n.slice, ast.Slice):
+                    lo, hi, stp = [self.ev(x, env, so) if x is not None else None for x in (n.slice.lower, n.slice.upper, n.slice.step)]
+                    return base[lo:hi:stp]
                 return base[self.ev(n.slice, env, so)]
             raise Unsupported("subscript")
         if isinstance(n, ast.Dict) and all(k is not None for k in n.keys):
